@@ -14,6 +14,7 @@ opaque(LAYERS, "YowLayer.toLower", event="toLower", raises=True)
 @contract(FILE, "YowNoiseSegmentsLayer.receive")
 def receive(self: Obj("YowNoiseSegmentsLayer"), data: Bytes):
     requires(wf_stream(self._read_buffer + data))
+    modifies(self._read_buffer)
     # segmentation on: the frames handed upward are exactly the complete frames of (buffer ++ data),
     # the buffer keeps exactly the incomplete rest, nothing is sent downward
     ensures(implies(truthy(event_result("getProp", 0)),
